@@ -610,6 +610,9 @@ def _elf_apply(ef, op, islice):
         if k == 'segnotes':
             s = ef.get_segment(op[1])
             return tuple(repr(sorted((kk, repr(v)) for kk, v in n.items())) for n in islice(s.iter_notes(), op[2]))
+        if k == 'segsymbyname':
+            r = ef.get_segment(op[1]).get_symbol_by_name(op[2])
+            return None if r is None else tuple((x.name, repr(x.entry)) for x in r)
         if k == 'segsyms':
             s = ef.get_segment(op[1])
             return tuple((x.name, repr(x.entry)) for x in islice(s.iter_symbols(), op[2]))
@@ -637,6 +640,16 @@ def _elf_apply(ef, op, islice):
                 if op[3] is not None:
                     ef.stream.seek(op[3] + len(out))
             return tuple(out)
+        if k == 'iterrel_look':     # a walk that looks one entry ahead by index on the same object
+            out = []
+            nrel = s.num_relocations()
+            for j, r in enumerate(itertools.islice(s.iter_relocations(), op[2])):
+                out.append(repr(r.entry))
+                if j + 1 < nrel:
+                    s.get_relocation(j + 1)
+            return tuple(out)
+        if k == 'iterrel_zip':      # two walks of one object advanced in turns
+            return tuple(repr(a.entry) for a, b in itertools.islice(zip(s.iter_relocations(), s.iter_relocations()), op[2]))
         if k == 'hasidx':
             return s.has_indexes() if hasattr(s, 'has_indexes') else None
         if k == 'hash':
@@ -708,7 +721,8 @@ def run_hist_elf(idx, rng, sh, focus=False):
     from elftools.elf.segments import NoteSegment
     notesegs = [i for i in range(nseg) if isinstance(ef0.get_segment(i), NoteSegment)]
     from elftools.elf.relocation import RelrRelocationSection
-    M = {'iterrel': (RelocationSection, RelrRelocationSection), 'hasidx': GNUVerNeedSection, 'sym': SymbolTableSection, 'symbyname': SymbolTableSection, 'itersym': SymbolTableSection, 'tags': DynamicSection,
+    M = {'iterrel': (RelocationSection, RelrRelocationSection), 'iterrel_look': (RelocationSection, RelrRelocationSection),
+         'iterrel_zip': (RelocationSection, RelrRelocationSection), 'hasidx': GNUVerNeedSection, 'sym': SymbolTableSection, 'symbyname': SymbolTableSection, 'itersym': SymbolTableSection, 'tags': DynamicSection,
          'ntags': DynamicSection, 'notes': NoteSection, 'rel': RelocationSection, 'hash': (ELFHashSection, GNUHashSection),
          'hashcount': (ELFHashSection, GNUHashSection), 'vers': (GNUVerNeedSection, GNUVerDefSection),
          'getver': (GNUVerNeedSection, GNUVerDefSection), 'versym': GNUVerSymSection, 'getstr': StringTableSection,
@@ -738,7 +752,7 @@ def run_hist_elf(idx, rng, sh, focus=False):
     def rand_op():
         k = rng.choice(fkinds + ['data', 'sec']) if focus else rng.choice(
             ['nsec', 'sec', 'byname', 'index', 'has', 'iter', 'data', 'data_twice', 'data_after', 'seg', 'segdata', 'addr', 'segtags',
-             'segsyms', 'segnotes'] + list(M))
+             'segsyms', 'segsymbyname', 'segnotes'] + list(M))
         if focus and k in ('data', 'sec'):
             return (k, fi)
         if k == 'nsec':
@@ -756,6 +770,8 @@ def run_hist_elf(idx, rng, sh, focus=False):
             return (k, rng.randrange(nseg)) if nseg else ('nsec',)
         if k == 'addr':
             return (k, rng.choice([0x400000, 0x400100, 0x601000, 0x1000, 0x10000, 0, 0x8000, 0x10074]), rng.choice([1, 8, 0x1000]))
+        if k == 'segsymbyname':
+            return (k, rng.choice(dynsegs), rng.choice(symnames)) if dynsegs else ('nsec',)
         if k == 'segnotes':
             return ((k, rng.choice(notesegs), rng.randint(1, 6)) + ((rng.randrange(len(data)),) if rng.random() < 0.5 else ())) if notesegs else ('nsec',)
         if k in ('segtags', 'segsyms'):
@@ -776,6 +792,8 @@ def run_hist_elf(idx, rng, sh, focus=False):
             return (k, i, rng.randrange(max(1, secs[i].num_relocations())))
         if k == 'iterrel':
             return (k, i, rng.randint(2, 12), rng.randrange(len(data)))
+        if k in ('iterrel_look', 'iterrel_zip'):
+            return (k, i, rng.randint(2, 12))
         if k == 'versym':
             return (k, i, rng.randrange(max(1, secs[i].num_symbols())))
         if k == 'getver':
@@ -804,6 +822,8 @@ def run_hist_elf(idx, rng, sh, focus=False):
         ref = ('data', op[1]) if op[0] in ('data_twice', 'data_after') else op
         if op[0] == 'iterrel' or (op[0] in WALKS and len(op) > 3):
             ref = op[:3] + (None,)          # the reference walk is the undisturbed one
+        if op[0] in ('iterrel_look', 'iterrel_zip'):
+            ref = ('iterrel', op[1], op[2], None)
         if ref not in fresh:
             fresh[ref] = elf_apply(ELFFile(io.BytesIO(data)), ref)
         if got != fresh[ref]:
